@@ -238,6 +238,9 @@ SummaryViolationsOf(o, i) ==
   IN IF \E j \in gb : SumCol(j) \notin DOMAIN o[sumId].cols \/ SrcCol(j) \notin DOMAIN o[srcId].cols
         \/ "group" \notin DOMAIN o[sumId].cols
      THEN {"C12.columns"} ELSE
+     \* Group-by columns of type Date / DateTime are not judged: their key is the calendar date of the
+     \* raw timestamp, which is arithmetic on 64-bit values that the tokens do not expose.
+     IF \E j \in gb : o[srcId].base[SrcCol(j)] \in {"Date", "DateTime"} THEN {} ELSE
   LET Empty(base) == IF base = "ChoiceList" THEN "s" ELSE "#0"
       KeyVals(ir, j) ==
         LET cell == o[srcId].cols[SrcCol(j)][ir]
